@@ -446,10 +446,12 @@ pub fn worker(o: WorkerOpts) -> i32 {
         } else if fault_enumerating(&o.prop) {
             // Fault enumeration: re-execute the recorded scenario with the k-th callback of a class
             // panicking inside a target operation, for every k (thorough) or a sample (quick).
-            let targets = pick_targets(&res, &mut rng, if o.thorough { 6 } else { 3 });
+            // (under Miri every re-execution costs seconds: the sampled form is used there in both tiers)
+            let exhaustive = o.thorough && !cfg!(miri);
+            let targets = pick_targets(&res, &mut rng, if exhaustive { 6 } else { 3 });
             for (j, class, n) in targets {
                 enum_targets += 1;
-                let ks: Vec<u32> = if o.thorough || n <= 4 {
+                let ks: Vec<u32> = if exhaustive || n <= 4 {
                     (1..=n).collect()
                 } else {
                     let mut v = vec![1, 2, n, n - 1, 1 + rng.below(n as u64) as u32, 1 + rng.below(n as u64) as u32];
